@@ -1,6 +1,8 @@
 package checks
 
 import (
+	"os"
+
 	"context"
 	"fmt"
 	"math"
@@ -9,6 +11,8 @@ import (
 	"testing"
 	"testing/synctest"
 	"time"
+	"verif/mc/hist"
+	"verif/mc/model"
 
 	"google.golang.org/protobuf/proto"
 	"google.golang.org/protobuf/types/known/durationpb"
@@ -21,7 +25,46 @@ import (
 	"verif/mc/world"
 )
 
-func init() { otherChecks["C17"] = runC17 }
+func init() {
+	otherChecks["C17"] = runC17
+	histExtra["C17"] = c17Enforced
+}
+
+// c17Enforced: "... and what is enforced".  The durations, the retry policy and
+// the filter of a LIVE subscription are changed through UpdateSubscription in the
+// middle of histories; from then on the reference model expects the behaviour of
+// the NEW configuration (expiry only a full new TTL after the last activity,
+// retention of later messages, back-off of later attempts, routing of later
+// publishes).  Explored like the other history scenarios (E1).
+func c17Enforced(tier string) []*hist.Scenario {
+	return []*hist.Scenario{
+		{
+			ID: "C17/enforced-durations", Prop: "C17", Depth: d(tier, 5, 6), Drain: true,
+			Cfg: model.Cfg{Topics: []string{"T0"}, Subs: []model.SubCfg{
+				{Name: "S0", Topic: "T0", Retention: 40 * time.Second, TTL: 2 * time.Minute},
+			}},
+			Alphabet: []model.Op{
+				pub1("T0", "", 0), pull("S0", 10),
+				reconfig("S0", "ttl:1h"), reconfig("S0", "ttl:default"), reconfig("S0", "ttl:2min"),
+				reconfig("S0", "ret:10min"), reconfig("S0", "ret:default"),
+				job("delete-expired-subscriptions", 0, 100),
+				tick("ret-"), tick("ret+"), tick("ttl-"), tick("ttl+"),
+			},
+		},
+		{
+			ID: "C17/enforced-retry-and-filter", Prop: "C17", Depth: d(tier, 5, 6), Drain: true,
+			Cfg: model.Cfg{Topics: []string{"T0"}, Subs: []model.SubCfg{
+				{Name: "S0", Topic: "T0", Filter: fX, MinBackoff: 30 * time.Second},
+			}},
+			Alphabet: []model.Op{
+				pub1("T0", "", 0), pub1("T0", "", 1), pull("S0", 10), nack("S0", "all"),
+				reconfig("S0", "retry:1s"), reconfig("S0", "retry:30s-max40s"), reconfig("S0", "retry:none"),
+				reconfig("S0", "filter:none"), reconfig("S0", "filter:notx"),
+				tick("lease-"), tick("lease+"),
+			},
+		},
+	}
+}
 
 // subModel is the harness's own record of what a subscription's configuration
 // must be (0 / "" / nil = unset, defaults applied on read).
@@ -455,6 +498,18 @@ func runC17(t *testing.T, tier string) int {
 	sort.Slice(sink.list, func(i, j int) bool {
 		return len(strings.Join(sink.list[i].Trace, "")) < len(strings.Join(sink.list[j].Trace, ""))
 	})
+	if os.Getenv("VERIF_NO_HIST") == "" {
+		hcov, hviol, _, rc := histPart(t, "C17", tier, c17Enforced(tier), t0)
+		if rc != 0 {
+			return rc
+		}
+		cov["enforced"] = hcov
+		cov["enforced_explanation"] = "explicit-state BFS over histories in which UpdateSubscription changes TTL / retention / retry policy / filter of a live subscription; the reference model then demands the behaviour of the new configuration"
+		if ex, _ := hcov["exhaustive"].(bool); !ex {
+			cov["exhaustive"] = false
+		}
+		sink.list = append(sink.list, hviol...)
+	}
 	return report.Finish(ev, sink.list, t0)
 }
 
